@@ -18,6 +18,31 @@ Theorem C09_fg_is_recent :
 Proof. exact fg_is_recent. Qed.
 Print Assumptions C09_fg_is_recent.
 
+(* Exact content (completeness as well as recency): `fed_tags` lists everything that was ever fed
+   to the estimators, oldest first - the initial point (tag -1), then every good draw before the
+   final step-size window, each once.  The foreground estimator holds exactly those of them that
+   are later than the switch before the last one (nothing older, nothing missing, nothing twice),
+   the background estimator exactly those later than the last switch.  The correspondence check
+   recomputes every installed diagonal transformation from these draws. *)
+Theorem C09_fg_is_exact_window :
+  forall (nextw : N -> N) (o : sopts) (st0 : gstate) (goods : list bool),
+    let '(st, hist) := run_sw nextw o (gs_init st0) 0 goods [] in
+    w_fg (g_win st) = newer_than (nth 1 hist (-2)%Z) (fed_tags st0 goods) /\
+    w_bg (g_win st) = newer_than (nth 0 hist (-2)%Z) (fed_tags st0 goods).
+Proof. exact fg_is_exact. Qed.
+Print Assumptions C09_fg_is_exact_window.
+
+(* The window printed for draw i by `global_trace_fg` (model/Schedule.v: `fg_windows`) is the
+   foreground window of the state reached after draws 0..i, the object of the theorems above. *)
+Theorem C09_printed_window_is_foreground :
+  forall (nextw : N -> N) (o : sopts) (st : gstate) (k : N) (hist : list Z) (goods : list bool)
+         (i : nat),
+    (i < length goods)%nat ->
+    nth i (fg_windows nextw o st k goods) [] =
+    w_fg (g_win (fst (run_sw nextw o st k (firstn (S i) goods) hist))).
+Proof. intros nextw o st k hist goods i. exact (fg_windows_spec nextw o goods st k hist i). Qed.
+Print Assumptions C09_printed_window_is_foreground.
+
 (* A switch happens exactly when the background estimator holds a full window and another full
    (next) window still fits before the final step-size window. *)
 Theorem C09_switch_condition :
@@ -112,3 +137,13 @@ Example C09_nonvacuous :
   (hist, w_fg (g_win st), w_bg (g_win st)) = ([6; 3; 0]%Z, [4; 5; 6; 7; 8]%Z, [7; 8]%Z).
 Proof. vm_compute. reflexivity. Qed.
 Print Assumptions C09_nonvacuous.
+
+(* non-vacuity of the exact-window theorem on the same run: draws 0..8 with draw 2 rejected *)
+Example C09_exact_nonvacuous :
+  fed_tags (gs_new_raw o_small 40 4 34) [true; true; false; true; true; true; true; true; true]
+    = [-1; 0; 1; 3; 4; 5; 6; 7; 8]%Z /\
+  fg_windows (fun c => c + 1) o_small (gs_init (gs_new_raw o_small 40 4 34)) 0
+    [true; true; false; true; true; true; true; true; true]
+    = [[-1; 0]; [-1; 0; 1]; [-1; 0; 1]; [1; 3]; [1; 3; 4]; [1; 3; 4; 5]; [4; 5; 6]; [4; 5; 6; 7]; [4; 5; 6; 7; 8]]%Z.
+Proof. vm_compute. split; reflexivity. Qed.
+Print Assumptions C09_exact_nonvacuous.
